@@ -103,7 +103,7 @@ def correspond(ctx, runs, tag):
 def run(ctx):
     quick = ctx.tier == "quick"
     ctx.rule = ("host programs over handles (new, 1- and 2-qubit gates, measure in place / destructively, free, "
-                "create/recv keep of 1..3 pairs (OKs delivered one per wait poll or all at the first), sequential keep of 1..3 pairs with a post routine, create/recv EPR context of 1..3 pairs (block / routine: H+measure, free, measure in place+free, H+free, keep), Bell state per pair drawn from all four, "
+                "create/recv keep of 1..3 pairs (OKs delivered one per wait poll or all at the first), keep of 1..3 pairs with a post routine (sequential or not), sequential keep without routine, create/recv EPR context of 1..3 pairs (block / routine: H+measure, free, measure in place+free, H+free, keep), Bell state per pair drawn from all four, "
                 "flush) generated op by op while running on the real SDK so that the host never exceeds the budget "
                 "(max_qubits, minus one on NV) and only addresses live handles; 19 configurations x 2 physical layouts (lowest unused physical qubit / physical qubit 0 owned by the link layer): generic 1..5, "
                 "NV 2..6 without and with the NV transpiler, generic config + NV compiler 3 and 5; plus every "
@@ -124,8 +124,8 @@ def run(ctx):
         "issued; each pair is reported in any of the four Bell states (the receiver's correction gates are uses of virtual qubits)",
         "modelled, not verified: instructions are abstracted to the events that touch the unit module (qalloc, qfree, "
         "pair delivery, gate/init/meas/mov operands); registers, arrays and branches are the object of C05/C14",
-        "EPR operations covered: create_keep/recv_keep without post_routine and not sequential; create_context/"
-        "recv_context and create_keep/recv_keep(sequential=True, post_routine=...) whose block / routine handles "
+        "EPR operations covered: create_keep/recv_keep with every combination of sequential and post_routine the "
+        "API accepts; create_context/recv_context; blocks / routines handle "
         "its qubit in one of five ways: H+measure, free, measure in place+free, H+free, H and keep (keep: one pair, "
         "or several pairs on hardware with several communication qubits).  Not covered: "
         "measure-directly and remote-state-preparation requests, min_fidelity_all_at_end retry loops, operations "
@@ -177,7 +177,7 @@ def run(ctx):
 
     # 3. generated programs, every configuration
     cfgs = qa.all_configs()
-    n_rand = 1500 if quick else 6000
+    n_rand = 1500 if quick else 4000
     for i in range(n_rand):
         cfg = cfgs[i % len(cfgs)].with_layout((i // len(cfgs)) % 2 == 1)
         ops, s = qa.gen_program(repo, cfg, rng, 12 if i % 3 == 0 else 36, want_refusal=(i % 6 == 0))
@@ -189,11 +189,11 @@ def run(ctx):
                 break
     # 4. exhaustive small programs
     depth = 3 if quick else 4
-    ex_cfgs = [qa.Cfg(2, False, False), qa.Cfg(3, True, False, True), qa.Cfg(3, True, True)]
+    ex_cfgs = [(c, depth) for c in (qa.Cfg(2, False, False), qa.Cfg(3, True, False, True), qa.Cfg(3, True, True))]
     if not quick:
-        ex_cfgs += [qa.Cfg(1, False, False), qa.Cfg(4, True, True)]
-    for cfg in ex_cfgs:
-        for d in range(1, depth + 1):
+        ex_cfgs += [(qa.Cfg(1, False, False), 4), (qa.Cfg(4, True, True), 3), (qa.Cfg(3, False, False, True), 3)]
+    for cfg, dmax in ex_cfgs:
+        for d in range(1, dmax + 1):
             for ops in qa.enumerate_programs(cfg, d):
                 ops = [list(o) for o in ops] + [["flush"]]
                 s, key = run_keyed(repo, cfg, ops)
